@@ -164,7 +164,7 @@ def gen_c01_spec(rng: random.Random, maxn: int = 40) -> Dict[str, Any]:
     for i in range(n):
         r = rng.random()
         kind = "valid" if r < 0.75 else ("malformed" if r < 0.9 else "unknown")
-        m: Dict[str, Any] = {"at": ats[i], "kind": kind, "variant": rng.randint(0, 4),
+        m: Dict[str, Any] = {"at": ats[i], "kind": kind, "variant": rng.randint(0, 12),
                              "task": rng.choice(["t_async", "t_async", "t_sync"]),
                              "ackable": rng.random() < 0.5,
                              "beh": gen_beh(rng, ["ok", "ok", "raise", "noresult"])}
@@ -375,7 +375,7 @@ def gen_c03_spec(rng: random.Random, maxn: int = 40) -> Dict[str, Any]:
             m["timeout"] = rng.choice([0.05, 0.2])
         elif kind in ("malformed", "unknown"):
             m["kind"] = kind
-            m["variant"] = rng.randint(0, 4)
+            m["variant"] = rng.randint(0, 12)
         elif kind == "backend":
             fail.append(tok)
         elif kind == "hook":
@@ -456,19 +456,32 @@ class C03(WorkerCheck):
 def gen_c04_spec(rng: random.Random, A: int, P: int) -> Dict[str, Any]:
     bound = A + P + 1
     n = 2 * bound + rng.randint(0, 6)
-    pat = rng.choice(["upfront", "upfront", "burst", "trickle"])
+    pat = rng.choice(["upfront", "upfront", "burst", "trickle", "idle_burst", "idle_burst"])
     msgs = []
     t = 0.0
+    lead = rng.randint(0, 2)
     for i in range(n):
-        if pat == "burst" and i and i % rng.randint(2, 5) == 0:
+        if pat == "idle_burst":
+            # a few early messages, an idle gap of several poll periods, then the whole backlog at once
+            if i == lead:
+                t += rng.choice([0.35, 0.7, 1.0, 1.4, 2.5, 3.1])
+        elif pat == "burst" and i and i % rng.randint(2, 5) == 0:
             t += rng.choice([0.1, 0.3, 0.5])
         elif pat == "trickle":
             t += rng.choice([0, EPS, 0.01, 0.05])
         dur = rng.choice([[0.5], [1.0], [2.0], [0.3], [5.0], ["never"], [0.05], ["y"], [0.31]])
+        if pat == "idle_burst":
+            dur = [0.05] if i < lead else rng.choice([[5.0], [8.0], ["never"], [2.0]])
         msgs.append({"at": round(t, 6), "task": "t_async", "ackable": True, "ack_async": rng.random() < 0.5,
                      "ack_lat": rng.choice([0, 0.05]), "beh": {"dur": dur, "out": rng.choice(["ok", "ok", "raise:ValueError"])}})
     spec: Dict[str, Any] = {"cfg": {"A": A, "P": P, "ack": "when_saved"}, "msgs": msgs,
                             "backend": {"lat": rng.choice([0, 0.05, 0.2])}}
+    if rng.random() < 0.25:
+        # hostile extra: some messages hit a raising hook or a failing backend (the bound must survive that)
+        toks = [f"m{i}" for i in range(n) if rng.random() < 0.3]
+        h = rng.choice(["pre_execute", "post_execute", "post_save"])
+        spec["mws"] = [{h: {"async": rng.random() < 0.5, "raise": toks}}]
+        spec["backend"]["fail"] = [f"m{i}" for i in range(n) if rng.random() < 0.1]
     if rng.random() < 0.3:
         spec["stop_at"] = rng.choice([0.5, 1.0, 2.2])
     spec["horizon"] = 40.0
@@ -537,7 +550,8 @@ def gen_c05_spec(rng: random.Random, maxn: int = 16) -> Dict[str, Any]:
             beh["dur"] = ["never"]
         m = {"at": ats[i], "task": "t_async", "ackable": rng.random() < 0.7, "ack_async": rng.random() < 0.5,
              "ack_lat": rng.choice([0, 0, "y", 0.05, 0.4]), "beh": beh,
-             "kind": "valid" if rng.random() < 0.9 else rng.choice(["malformed", "unknown"])}
+             "kind": "valid" if rng.random() < 0.9 else rng.choice(["malformed", "unknown"]),
+             "variant": rng.randint(0, 12)}
         msgs.append(m)
     spec: Dict[str, Any] = {"cfg": cfg, "msgs": msgs, "backend": {"lat": rng.choice([0, 0, 0.05, 0.4])}}
     mode = rng.choice(["stop", "stop", "stop", "end", "none"])
